@@ -7,6 +7,7 @@ import (
 	"strings"
 	"sync"
 
+	"github.com/AdguardTeam/urlfilter"
 	"github.com/AdguardTeam/urlfilter/rules"
 
 	"verif/enum"
@@ -47,6 +48,7 @@ var c07Features = [][]string{
 	{"", "ctag=pc", "ctag=~pc"},                                 // 7
 	{"", "client=10.0.0.1", "client=~10.0.0.1"},                 // 8
 	{"", "denyallow=x.com"},                                     // 9
+	{"", "redirect=noopjs"},                                     // 10: rejected by the parser today; structural axioms apply as soon as it parses
 }
 
 func c07Build(feat []int) *c07Rule {
@@ -186,6 +188,9 @@ func init() {
 					violate("asymmetric", []int{i, j}, fmt.Sprintf("%q and %q outrank each other", pool[i].text, pool[j].text))
 				}
 				want := keyLess(pool[j].key(), pool[i].key())
+				if pool[i].feat[10] != 0 || pool[j].feat[10] != 0 {
+					continue // no documented rank for $redirect: only the structural axioms are checked
+				}
 				if ij != want && !(ij && ji) {
 					violate("consistent-with-documented-criteria", []int{i, j},
 						fmt.Sprintf("IsHigherPriority(%q, %q) = %v but (class, specific, modifier count) is %v vs %v", pool[i].text, pool[j].text, ij, pool[i].key(), pool[j].key()))
@@ -403,6 +408,68 @@ func init() {
 			})
 		}
 		c.Run.Set("document_rule_selections", docSelections)
+
+		// selection through the engines: candidates spread over the three lookup tables,
+		// every ordered list of <=3 of them; the selected rule has the maximal key
+		var engPool []srule
+		for _, pat := range []string{"||ads.example.com^", ".com^", "/x"} {
+			for _, exc := range []bool{false, true} {
+				for _, imp := range []bool{false, true} {
+					var o []string
+					if imp {
+						o = append(o, "important")
+					}
+					if pat == "/x" {
+						o = append(o, "domain=src.org")
+					}
+					engPool = append(engPool, srule{exc, pat, o})
+				}
+			}
+		}
+		var engLists [][]int
+		for size := 1; size <= 3; size++ {
+			enum.Sequences(len(engPool), size, func(s []int) bool {
+				seen := map[int]bool{}
+				for _, v := range s {
+					if seen[v] {
+						return true
+					}
+					seen[v] = true
+				}
+				engLists = append(engLists, append([]int{}, s...))
+				return true
+			})
+		}
+		var engSelections int64
+		c.parallel(len(engLists), func(li int) {
+			var lines []string
+			byT := map[string]srule{}
+			best := [3]int{-1, 0, 0}
+			for _, i := range engLists[li] {
+				lines = append(lines, engPool[i].text())
+				byT[engPool[i].text()] = engPool[i]
+				if k := engPool[i].key(); keyLess(best, k) {
+					best = k
+				}
+			}
+			st := stringStorage(joinLines(lines) + "\n")
+			req := func() *rules.Request {
+				return rules.NewRequest("http://ads.example.com/x", "http://src.org/", rules.TypeScript)
+			}
+			sel1 := urlfilter.NewEngine(st).MatchRequest(req()).BasicRule
+			sel2, _ := urlfilter.NewNetworkEngine(st).Match(req())
+			for which, sel := range []*rules.NetworkRule{sel1, sel2} {
+				name := []string{"Engine.MatchRequest", "NetworkEngine.Match"}[which]
+				mu.Lock()
+				engSelections++
+				mu.Unlock()
+				if sel == nil || byT[sel.RuleText].key() != best {
+					c.Run.Violate(ev.Violation{Pred: "engine-selected-rule-is-maximal", Sig: map[string]any{"lines": lines, "engine": name},
+						What: fmt.Sprintf("%s over %v selected %s, the maximal (class, specific, count) key among the candidates is %v", name, lines, renderNetText(sel), best), Replay: map[string]any{"rules": []string{}}})
+				}
+			}
+		})
+		c.Run.Set("engine_selections", engSelections)
 
 		c.Run.Sample(map[string]any{"pair": []string{pool[1].text, pool[n-1].text}, "first_outranks_second": M.get(1, n-1)})
 		c.Run.Sample(map[string]any{"rule": pool[n/2].text, "key(class,specific,count)": pool[n/2].key()})
